@@ -105,7 +105,7 @@ pub open spec fn tracked_part(work: Seq<char>, begin: Option<&str>, end: Option<
     }
 }
 
-//!fn src/core/git.rs git_cmd_diff_changes rules=R1,R12,R16 props=C02
+//!fn src/core/git.rs git_cmd_diff_changes rules=R1,R12,R16 props=C02,C07,C01
 pub(crate) async fn git_cmd_diff_changes(
     git_path: &str,
     work_path: &path::Path,
@@ -118,7 +118,7 @@ pub(crate) async fn git_cmd_diff_changes(
 @        // verbatim (NUL-separated: never quoted or escaped); one revision means "against the working tree"
 @        res matches Ok(v) ==> names(v@) == (match (begin, end) {
 @            (Some(b), Some(e)) => diff_paths(work_path@, b@, Some(e@)), (Some(b), None) => diff_paths(work_path@, b@, None),
-@            (None, Some(e)) => diff_paths(work_path@, e@, None), (None, None) => Seq::<Seq<char>>::empty() }), // [C02]
+@            (None, Some(e)) => diff_paths(work_path@, e@, None), (None, None) => Seq::<Seq<char>>::empty() }), // [C02,C07,C01]
 {
     let mut args⟦: Vec<&str>⟧ = vec!["diff", "--name-only", "--no-renames", "-z"];
     if let Some(begin) = begin {
@@ -155,14 +155,14 @@ pub(crate) async fn git_cmd_diff_changes(
     }
 }
 //!end
-//!fn src/core/git.rs git_cmd_other_changes rules=R1,R12,R16 props=C02
+//!fn src/core/git.rs git_cmd_other_changes rules=R1,R12,R16 props=C02,C07,C01
 pub(crate) async fn git_cmd_other_changes(
     git_path: &str,
     work_path: &path::Path,
 ) -> ⟦(res: ⟧Result<Vec<Change>, MonorailError>⟦)⟧
 @    ensures
 @        // C02: every untracked path that the ignore rules do not exclude, verbatim
-@        res matches Ok(v) ==> names(v@) == untracked_paths(work_path@), // [C02]
+@        res matches Ok(v) ==> names(v@) == untracked_paths(work_path@), // [C02,C07,C01]
 {
 @    proof { broadcast use axiom_git_others, axiom_parse_join; }
     let mut child = get_git_cmd_child(
@@ -190,7 +190,7 @@ pub(crate) async fn git_cmd_other_changes(
     }
 }
 //!end
-//!fn src/core/git.rs get_git_diff_changes rules=R1 props=C02
+//!fn src/core/git.rs get_git_diff_changes rules=R1 props=C02,C07,C01
 pub(crate) async fn get_git_diff_changes<'a>(
     git_opts: &'a GitOptions<'a>,
     checkpoint: &'a tracking::Checkpoint,
@@ -199,7 +199,7 @@ pub(crate) async fn get_git_diff_changes<'a>(
 @    ensures
 @        // C02: the tracked part is the difference from --begin when given, else from the checkpoint's commit, to --end when given, else
 @        // to the working tree; without either, HEAD against the working tree
-@        res matches Ok(v) ==> names(v@) == tracked_part(work_path@, git_opts.begin, git_opts.end, checkpoint.id@), // [C02]
+@        res matches Ok(v) ==> names(v@) == tracked_part(work_path@, git_opts.begin, git_opts.end, checkpoint.id@), // [C02,C07,C01]
 {
     let begin = git_opts.begin.or_else(|| ⟦-> (o: Option<&'a str>) ensures checkpoint.id@.len() == 0 ==> o is None, checkpoint.id@.len() > 0 ==> (o matches Some(s) && s@ == checkpoint.id@) {⟧{
         // otherwise, check checkpoint.id; if provided, use that
@@ -217,7 +217,7 @@ pub(crate) async fn get_git_diff_changes<'a>(
     git_cmd_diff_changes(git_opts.git_path, work_path, begin, end).await
 }
 //!end
-//!fn src/core/git.rs get_git_all_changes rules=R1,R11,R12 props=C02,C07
+//!fn src/core/git.rs get_git_all_changes rules=R1,R11,R12 props=C02,C07,C01
 pub(crate) async fn get_git_all_changes<'a>(
     git_opts: &'a GitOptions<'a>,
     checkpoint: &'a tracking::Checkpoint,
@@ -228,7 +228,7 @@ pub(crate) async fn get_git_all_changes<'a>(
 @        // recorded as pending - reported sorted
 @        res matches Ok(v) ==> sorted_names(names(v@)), // [C02]
 @        res matches Ok(v) ==> forall|p: Seq<char>| #![trigger has(names(v@), p)] has(names(v@), p) <==>
-@            ((has(untracked_paths(work_path@), p) || has(tracked_part(work_path@, git_opts.begin, git_opts.end, checkpoint.id@), p)) && !settled(checkpoint.pending, work_path@, p)), // [C02,C07]
+@            ((has(untracked_paths(work_path@), p) || has(tracked_part(work_path@, git_opts.begin, git_opts.end, checkpoint.id@), p)) && !settled(checkpoint.pending, work_path@, p)), // [C02,C07,C01]
 {
     let (diff_changes, mut other_changes) = try_join2(get_git_diff_changes(git_opts, checkpoint, work_path).await, git_cmd_other_changes(git_opts.git_path, work_path).await)?;
 @    let ghost un = names(other_changes@);
